@@ -9,6 +9,7 @@ import (
 	"encoding/json"
 	"flag"
 	"fmt"
+	"go/types"
 	"os"
 	"path/filepath"
 	"sort"
@@ -55,6 +56,7 @@ type Lock struct {
 	Obligations map[string]map[string]string `json:"obligations"` // property -> obligation -> status
 	Covers      map[string]map[string]string `json:"covers"`      // property -> obligation -> "sat" (reachable on the reference tree; thorough tier)
 	Sigs        map[string]*FuncSig          `json:"signatures"`  // function -> names of parameters, results and locals on the reference tree
+	Structs     map[string][]string          `json:"structs"`     // named struct type of the module -> "field type" per field, in order, on the reference tree
 }
 
 func loadLock(path string) *Lock {
@@ -152,7 +154,9 @@ func checkMain(args []string) int {
 	}
 	loadS := time.Since(start).Seconds()
 	if !*writeLock {
-		v.lockSigs = loadLock(filepath.Join(*root, "obligations.lock")).Sigs
+		lk := loadLock(filepath.Join(*root, "obligations.lock"))
+		v.lockSigs = lk.Sigs
+		lockStructs = lk.Structs
 	}
 	pr, err := v.generateProperty(id)
 	if err != nil {
@@ -518,7 +522,7 @@ func checkMain(args []string) int {
 		// frame obligations exist per kind of memory the function touches:
 		// one that is not generated any more is a memory the code no longer
 		// writes (nothing to prove), not a clause that went missing
-		if strings.Contains(name, "/frame@") {
+		if strings.Contains(name, "/frame@") || strings.Contains(name, "/subtype-frame:") {
 			continue
 		}
 		if !have[name] && isNamedKind(name) && !*writeLock {
@@ -625,6 +629,7 @@ func checkMain(args []string) int {
 			for fnName, sg := range v.sigs {
 				lock.Sigs[fnName] = sg
 			}
+			lock.Structs = v.moduleStructs()
 			if *tier == "thorough" {
 				cm := map[string]string{}
 				for _, cv := range covers {
@@ -727,4 +732,36 @@ func replayMain(repo, path string) int {
 	fmt.Println("not reproduced on the current tree")
 	fmt.Println(truncate(raw, 2000))
 	return 0
+}
+
+// lockStructs: field lists of the module's struct types on the reference tree
+// (from obligations.lock); used to follow a renamed field (eval.go fieldAlias).
+var lockStructs map[string][]string
+
+func structFields(st *types.Struct) []string {
+	out := make([]string, st.NumFields())
+	for i := 0; i < st.NumFields(); i++ {
+		out[i] = st.Field(i).Name() + " " + types.TypeString(st.Field(i).Type(), nil)
+	}
+	return out
+}
+
+func (v *Verifier) moduleStructs() map[string][]string {
+	out := map[string][]string{}
+	for path, sp := range v.spkgs {
+		if sp == nil || sp.Pkg == nil || !inModule(sp.Pkg) {
+			continue
+		}
+		sc := sp.Pkg.Scope()
+		for _, n := range sc.Names() {
+			tn, ok := sc.Lookup(n).(*types.TypeName)
+			if !ok {
+				continue
+			}
+			if st, ok := tn.Type().Underlying().(*types.Struct); ok {
+				out[path+"."+n] = structFields(st)
+			}
+		}
+	}
+	return out
 }
